@@ -49,3 +49,9 @@ if __name__ == '__main__':
                                                           else 'MISSED'),
                               json.dumps(out)[:230]))
     print('caught by some check: %d / %d' % (caught, len(res)))
+    if not sys.argv[1:]:
+        idx = {sid: {p: v for p, v in out.items()
+                     if v != ['ANALYSIS-ERROR'] and p != 'error'}
+               for sid, out in res}
+        json.dump(idx, open(os.path.join(VERIF, 'seeded', 'index.json'),
+                            'w'), indent=1, sort_keys=True)
